@@ -128,7 +128,7 @@ class FitLoop(NdContract):
         if name == "len" and isinstance(args[0], Abstract) and args[0].tag == "unique":
             st.assume(args[0].count >= 1)
             return args[0].count
-        if name in ("DummyClassifier", "sklearn.dummy.DummyClassifier"):
+        if name in ("DummyClassifier", "sklearn.dummy.DummyClassifier", "DummyRegressor", "sklearn.dummy.DummyRegressor"):
             return Abstract("est", kind="constant", trained_for=None, constant=kwargs.get("constant"))
         if name in ("copy.deepcopy", "sklearn.base.clone", "sklearn.clone") and args and args[0] is self.estimator:
             return Abstract("est", kind="copy_of_the_base_estimator", trained_for=None)
